@@ -71,23 +71,30 @@ Definition h_sync (h : hnd) (F : bytes) : hnd * bytes :=
   let '(h1, F1) := h_flush h F in
   if h_retry h1 then (h_set_buf h1 (h_wbuf h1) 0 0, F1) else (h1, F1).
 
+(* one iteration of the loop of write(bs) with bs[n:] = rest (non-empty):
+   None = `return n, ErrBufferFull`, Some (handle, file, k) = k more bytes copied into the buffer *)
+Definition h_write_step (h : hnd) (F : bytes) (rest : bytes) : option (hnd * bytes * N) :=
+  let B := len (h_wbuf h) in
+  let avail := B - h_uw h in
+  if (avail =? 0) && h_retry h && negb (h_auto h) then None else
+  let '(h1, F1, avail1) :=
+    if avail =? 0 then
+      if h_retry h then let '(h', F') := h_sync h F in (h', F', B)
+      else let '(h', F') := h_flush h F in (h', F', B)
+    else (h, F, avail) in
+  let k := N.min (len rest) avail1 in
+  Some (h_set_buf h1 (upd (h_wbuf h1) (h_uw h1) (take k rest)) (h_fl h1) (h_uw h1 + k), F1, k).
+
 (* write(bs): `rest` is bs[n:]; returns the handle, the file, n and whether ErrBufferFull was hit *)
 Fixpoint h_write (fuel : nat) (h : hnd) (F : bytes) (rest : bytes) (n : N) : hnd * bytes * N * bool :=
   match fuel with
   | O => (h, F, n, false)
   | S fuel' =>
       if len rest =? 0 then (h, F, n, false) else
-      let B := len (h_wbuf h) in
-      let avail := B - h_uw h in
-      if (avail =? 0) && h_retry h && negb (h_auto h) then (h, F, n, true) else
-      let '(h1, F1, avail1) :=
-        if avail =? 0 then
-          if h_retry h then let '(h', F') := h_sync h F in (h', F', B)
-          else let '(h', F') := h_flush h F in (h', F', B)
-        else (h, F, avail) in
-      let k := N.min (len rest) avail1 in
-      let h2 := h_set_buf h1 (upd (h_wbuf h1) (h_uw h1) (take k rest)) (h_fl h1) (h_uw h1 + k) in
-      h_write fuel' h2 F1 (drop k rest) (n + k)
+      match h_write_step h F rest with
+      | None => (h, F, n, true)
+      | Some (h2, F1, k) => h_write fuel' h2 F1 (drop k rest) (n + k)
+      end
   end.
 
 (* Append (NoCompression) *)
@@ -165,7 +172,7 @@ Record sapp := mks { s_h : hnd; s_file : bytes; s_meta : bytes }.
 
 (* Open on a path that does not exist: metadata header, preallocSize zero bytes, then as above *)
 Definition s_create (prealloc : N) (meta : bytes) (o : oopts) : sapp :=
-  let F := zeros prealloc in mks (h_open F o) F meta.
+  let F := zeros prealloc in mks (h_open F (ro_nobuf o)) F meta.
 
 Definition s_step (s : sapp) (o : op) : sapp * out :=
   let h := s_h s in let F := s_file s in let m := s_meta s in
